@@ -2,6 +2,8 @@
 
 package value
 
+import "time"
+
 // C22 (formatting round trip): for every representable Date, parsing `to_string` / `strftime`
 // output with the matching format gives the date back. The formatted text is computed from the
 // real Date.String / Date.Format (fmt verbs modelled exactly: vxExactFormat) and parsed by the
@@ -43,4 +45,37 @@ func VX_C22_date_string_roundtrip() {
 	}
 	f, ferr := dt.Format(DefaultDateFormat)
 	vxAssert(ferr.IsUndefined() && f == s, "date-roundtrip/strftime-with-the-default-format-is-to_string")
+}
+
+// strftime %z / %:z of a DateTime in a fixed zone: sign, two digits of hours, two digits of
+// minutes of the absolute offset, for every offset strictly between -24h and +24h (seconds).
+// (Integer back end: the offset goes through nanoseconds, i.e. multiplication and division by
+// 10^9-sized constants; only DateTime.Format's own arithmetic is executed, the zone of the time
+// value is a time.FixedZone whose offset is the symbolic input.)
+func VX_C22_zone_offset_format() {
+	vxMode("int")
+	vxExactFormat()
+	off := vxInt("off")
+	vxAssume(off > -86400 && off < 86400)
+	dt := DateTime{native: time.Time{}.In(time.FixedZone("X", off))}
+	sign := byte('+')
+	a := off
+	if off < 0 {
+		sign = '-'
+		a = -off
+	}
+	// one path per hour of the offset (keeps the solver's integer division linear)
+	hh := vxChoose("hours", 24)
+	vxAssume(a >= hh*3600 && a < (hh+1)*3600)
+	mt := vxChoose("minute-tens", 6)
+	vxAssume(a-hh*3600 >= mt*600 && a-hh*3600 < (mt+1)*600)
+	mm := mt*10 + (a-hh*3600-mt*600)/60
+	colon := vxSplit("colon", 2) == 1
+	format, want := "%z", []byte{sign, byte('0' + hh/10), byte('0' + hh%10), byte('0' + mm/10), byte('0' + mm%10)}
+	if colon {
+		format, want = "%:z", []byte{sign, byte('0' + hh/10), byte('0' + hh%10), ':', byte('0' + mm/10), byte('0' + mm%10)}
+	}
+	got, err := dt.Format(format)
+	vxAssert(err.IsUndefined(), "zone-format/no-error")
+	vxAssert(got == string(want), "zone-format/sign-hours-minutes-of-the-absolute-offset")
 }
